@@ -167,8 +167,8 @@ type resCheck struct {
 // translation is the result of mapping a trace to the model.
 type translation struct {
 	N         int
-	Steps     []string   // schedule items (JSON), including probes
-	Scripts   [][]string // per client actor: the calls it issued (JSON)
+	Steps     []string     // schedule items (JSON), including probes
+	Scripts   [][]string   // per client actor: the calls it issued (JSON)
 	Probes    []schedProbe // steps that must be DISABLED in the model
 	Obs       []obsCheck
 	Res       []resCheck
@@ -176,7 +176,7 @@ type translation struct {
 	DivPc     string
 	BeginOrd  bool // divergence is the tolerated begin-order difference
 	Queries   int
-	Unmodeled int // calls outside the model vocabulary
+	Unmodeled int   // calls outside the model vocabulary
 	At        []int // trace index at which each step was placed (debugging)
 }
 
